@@ -79,15 +79,19 @@ func (i ImportNames) TypeName(t types.Type) string {
 			// A predeclared type such as error belongs to no package.
 			return typ.Obj().Name()
 		}
-		if pkgName, ok := i[typ.Obj().Pkg().Path()]; ok {
+		if pkgName, ok := i[typ.Obj().Pkg().Path()]; ok && pkgName != "." {
 			return fmt.Sprintf("%v.%v", pkgName, typ.Obj().Name())
 		}
+		// The setup package itself, or a dot-imported one: no qualifier.
 		return typ.Obj().Name()
 	default:
 		// Qualify named types inside composite types (slices, maps, ...) the way
 		// the setup file refers to them, not with their full import paths.
 		return types.TypeString(t, func(p *types.Package) string {
-			return i[p.Path()]
+			if pkgName := i[p.Path()]; pkgName != "." {
+				return pkgName
+			}
+			return ""
 		})
 	}
 }
